@@ -644,6 +644,10 @@ type RequestCtx struct {
 	timeoutResponse *Response
 	timeoutCh       chan struct{}
 	timeoutTimer    *time.Timer
+	// timeoutLock orders the installation of a timeout response with writes
+	// the handler goroutine makes to the connection itself (EarlyHints): once
+	// the request has timed out only the serve loop writes.
+	timeoutLock sync.Mutex
 
 	hijackHandler HijackHandler
 	formValueFunc FormValueFunc
@@ -682,6 +686,13 @@ type RequestCtx struct {
 func (ctx *RequestCtx) EarlyHints() error {
 	links := ctx.Response.Header.PeekAll(b2s(strLink))
 	if len(links) > 0 {
+		// A handler may still be running after its request timed out: the
+		// timeout response then owns the connection.
+		ctx.timeoutLock.Lock()
+		defer ctx.timeoutLock.Unlock()
+		if ctx.timeoutResponse != nil {
+			return ErrTimeout
+		}
 		c := acquireWriter(ctx)
 		defer releaseWriter(ctx.s, c)
 		_, err := c.Write(strEarlyHints)
@@ -1725,7 +1736,9 @@ func (ctx *RequestCtx) TimeoutErrorWithResponse(resp *Response) {
 		// which doesn't know the method of the timed out request.
 		respCopy.SkipBody = true
 	}
+	ctx.timeoutLock.Lock()
 	ctx.timeoutResponse = respCopy
+	ctx.timeoutLock.Unlock()
 }
 
 // NextProto adds nph to be processed when key is negotiated when TLS
